@@ -158,6 +158,32 @@ def r1(chk, prog):
             ok = ok and all(cfg.position(c) not in seen for c in sorts)
             chk.check(ok, 'R1', f.name, 'sorting happens once, after all elements were added, if requested [%s]' % tag,
                       f.loc(sorts[0]))
+        # (b') positional formatters are selected by the element's position in the DESTINATION (which is
+        #      carried over between uses of the argument), never by the position inside the current value list
+        for fm in fmts:
+            a = call_args(fm)
+            if len(a) < 2 or a[1].get('defarg'):
+                continue
+            idx = a[1]
+            v = strip_all_casts(idx)
+            dest_pos = any(x.get('k') == 'MemberExpr' and x.get('ref', {}).get('dk') == 'Field' and
+                           x['ref']['name'] in ('mIndex', 'mNumValuesSet') for x in walk(idx)) or \
+                any(x.get('k') in CALL_KINDS and x.get('callee', '').endswith('::size') and
+                    field_name(object_of(x)) == 'mDestVar' for x in walk(idx)) or \
+                v.get('k') == 'IntegerLiteral' or 'cv' in v
+            stored_at = None
+            for st_ in sts:
+                for x in walk(st_):
+                    if x.get('k') == 'MemberExpr' and x.get('ref', {}).get('name') in ('mIndex', 'mNumValuesSet'):
+                        stored_at = x['ref']['name']
+            same = True
+            if stored_at and any(x.get('k') == 'MemberExpr' and x.get('ref', {}).get('dk') == 'Field'
+                                 for x in walk(idx)):
+                same = any(x.get('k') == 'MemberExpr' and x.get('ref', {}).get('name') == stored_at for x in walk(idx))
+            chk.check(dest_pos and same, 'R1', f.name,
+                      'the positional formatter is chosen by the position in the destination [%s]' % tag, f.loc(fm),
+                      'format( value, <index>) uses an index that restarts with every value list: values split over '
+                      'several uses of the argument get the wrong formatter')
         # (d) separator
         toks = [c for c in f.calls() if callee_is(c, 'Tokenizer::Tokenizer')]
         ok = bool(toks) and all(field_name(call_args(c)[1]) == 'mListSep' for c in toks)
